@@ -457,9 +457,9 @@ func c20Settle(r *sysRun, busy bool) {
 		}
 		if simple {
 			want = want[off:]
-			if len(want) >= height {
-				// more output than fits: the last row of the window is not compared (whether fzf fills it is its
-				// own business - it leaves it blank)
+			if len(want) > height {
+				// more output than fits: the last row of the window is not compared (fzf leaves it blank when
+				// there is more to scroll to; an output that fits exactly is shown completely)
 				want = want[:maxInt(height-1, 0)]
 			}
 		}
@@ -498,6 +498,11 @@ func c20Settle(r *sysRun, busy bool) {
 					got = strings.TrimRight(scrollInfoRe.ReplaceAllString(got, ""), " ")
 				}
 				wantLine := strings.TrimRight(strings.TrimRight(l, "\n"), " ")
+				if i == len(want)-1 && i > 0 && len(want) == height && off == 0 && strings.TrimRight(got, " │|") == "" && wantLine != "" {
+					// every row but the last one of a window that the output fills exactly
+					c.violate("c20.last_row_blank", "[an output of exactly as many lines as the preview window has rows: the last row is blank] the command that ran last (%q) printed %d lines, the window has %d rows, row %d is empty instead of showing %q\n%s", last.Command, len(want), height, i, wantLine, strings.Join(scr, "\n"))
+					break
+				}
 				if !strings.HasPrefix(got, wantLine) || strings.TrimRight(strings.TrimPrefix(got, wantLine), " │|") != "" {
 					c.violate("c20.screen", "preview window row %d shows %q, the command that ran last (%q) printed %q as line %d\n%s", i, got, last.Command, wantLine, i, strings.Join(scr, "\n"))
 					break
